@@ -1,0 +1,74 @@
+//go:build verif
+
+// Contracts for the deductive verifier in /verif (govc); comments only.
+package ntor
+
+// The five protocol labels (package-level byte slices built with append).  Their values are
+// checked as constants by an evaluated const obligation (const.ntor_labels, C06/C08); here they
+// enter as the symbolic contents of the package variables.
+//@ spec fn T_KEY() BSeq
+//@ spec fn T_VERIFY() BSeq
+//@ spec fn T_MAC() BSeq
+//@ spec fn M_EXPAND() BSeq
+//@ spec fn PROTOID() BSeq
+//@ pred labelsOK() := seq(tKey) == T_KEY && seq(tVerify) == T_VERIFY && seq(tMac) == T_MAC && seq(mExpand) == M_EXPAND && seq(protoID) == PROTOID && len(protoID) == 24
+
+// secret_input / auth_input of the deployed ntor variant (B is repeated)
+//@ spec fn ntorSuffix(b BSeq, x BSeq, y BSeq, id BSeq) BSeq := cat(b, b, x, y, PROTOID, id)
+//@ spec fn ntorKeySeed(si BSeq, b BSeq, x BSeq, y BSeq, id BSeq) BSeq := HASH(1, T_KEY, cat(si, ntorSuffix(b, x, y, id)))
+//@ spec fn ntorVerify(si BSeq, b BSeq, x BSeq, y BSeq, id BSeq) BSeq := HASH(1, T_VERIFY, cat(si, ntorSuffix(b, x, y, id)))
+//@ spec fn ntorAuth(si BSeq, b BSeq, x BSeq, y BSeq, id BSeq) BSeq := HASH(1, T_MAC, cat(ntorVerify(si, b, x, y, id), ntorSuffix(b, x, y, id), "Server"))
+
+//@ func constantTimeIsZero(x) (r)
+//@   serves C08 C10
+//@   loop 1 invariant -1 <= rangeindex && rangeindex < len(x) && 0 <= ret && ret <= 255 && (ret == 0 <==> forall(j, offset(x), offset(x) + rangeindex + 1, aget(arr(x), j) == 0))
+//@   ensures [C08:zero_check] (r == 1 <==> forall(j, offset(x), offset(x) + len(x), aget(arr(x), j) == 0)) && (r == 0 || r == 1)
+//@   ensures [C08:zero_check_seq] (r == 1 ==> allzero(seq(x))) && (allzero(seq(x)) ==> r == 1)
+
+//@ func CompareAuth(auth1, auth2) (r)
+//@   serves C02 C08
+//@   ensures [C02:auth_compare] r == (seq(auth1) == seq(auth2))
+
+//@ func ntorCommon(secretInput, id, b, x, y) (keySeed, auth)
+//@   serves C06 C08 C10
+//@   requires labelsOK() && id != nil && b != nil && x != nil && y != nil
+//@   ghost si := secretInput.content
+//@   ensures [C06:ntor_transcript] fresh(keySeed) && fresh(auth) && keySeed != nil && auth != nil && keySeed != auth
+//@   ensures [C06:ntor_key_seed] seq(keySeed) == ntorKeySeed(si, seq(b), seq(x), seq(y), seq(id))
+//@   ensures [C06:ntor_auth] seq(auth) == ntorAuth(si, seq(b), seq(x), seq(y), seq(id))
+
+//@ pred kpOK(k) := k != nil && k.public != nil && k.private != nil && k.public != k.private
+
+//@ func ServerHandshake(clientPublic, serverKeypair, idKeypair, id) (ok, keySeed, auth)
+//@   serves C08 C06 C02 C03 C10
+//@   requires labelsOK() && clientPublic != nil && kpOK(serverKeypair) && kpOK(idKeypair) && id != nil
+//@   ghost e1 := X25519(seq(serverKeypair.private), seq(clientPublic))
+//@   ghost e2 := X25519(seq(idKeypair.private), seq(clientPublic))
+//@   ensures [C08:zero_check_server] ok <==> !allzero(e1) && !allzero(e2)
+//@   ensures [C06:exp_order_server] keySeed != nil && auth != nil && fresh(keySeed) && fresh(auth)
+//@       && seq(keySeed) == ntorKeySeed(cat(e1, e2), seq(idKeypair.public), seq(clientPublic), seq(serverKeypair.public), seq(id))
+//@       && seq(auth) == ntorAuth(cat(e1, e2), seq(idKeypair.public), seq(clientPublic), seq(serverKeypair.public), seq(id))
+
+//@ func ClientHandshake(clientKeypair, serverPublic, idPublic, id) (ok, keySeed, auth)
+//@   serves C08 C06 C02 C10
+//@   requires labelsOK() && kpOK(clientKeypair) && serverPublic != nil && idPublic != nil && id != nil
+//@   ghost e1 := X25519(seq(clientKeypair.private), seq(serverPublic))
+//@   ghost e2 := X25519(seq(clientKeypair.private), seq(idPublic))
+//@   ensures [C08:zero_check_client] ok <==> !allzero(e1) && !allzero(e2)
+//@   ensures [C06:exp_order_client] keySeed != nil && auth != nil && fresh(keySeed) && fresh(auth)
+//@       && seq(keySeed) == ntorKeySeed(cat(e1, e2), seq(idPublic), seq(clientKeypair.public), seq(serverPublic), seq(id))
+//@       && seq(auth) == ntorAuth(cat(e1, e2), seq(idPublic), seq(clientKeypair.public), seq(serverPublic), seq(id))
+
+//@ func Kdf(keySeed, okmLen) (okm)
+//@   serves C06 C08 C10
+//@   requires labelsOK() && 0 <= okmLen && okmLen <= 8160
+//@   ensures [C06:kdf] len(okm) == okmLen && fresh(okm) && seq(okm) == HKDF(seq(keySeed), T_KEY, M_EXPAND, 0, okmLen)
+
+// Both sides derive the same key seed and AUTH (Diffie-Hellman commutativity assumed).
+//@ lemma ntor_agree
+//@   serves C08
+//@   vars x BSeq, y BSeq, b BSeq, id BSeq
+//@   ensures [both_sides_agree] ntorKeySeed(cat(X25519(y, X25519BASE(x)), X25519(b, X25519BASE(x))), X25519BASE(b), X25519BASE(x), X25519BASE(y), id)
+//@        == ntorKeySeed(cat(X25519(x, X25519BASE(y)), X25519(x, X25519BASE(b))), X25519BASE(b), X25519BASE(x), X25519BASE(y), id)
+//@   ensures [auth_agrees] ntorAuth(cat(X25519(y, X25519BASE(x)), X25519(b, X25519BASE(x))), X25519BASE(b), X25519BASE(x), X25519BASE(y), id)
+//@        == ntorAuth(cat(X25519(x, X25519BASE(y)), X25519(x, X25519BASE(b))), X25519BASE(b), X25519BASE(x), X25519BASE(y), id)
